@@ -232,6 +232,17 @@ class InferScenario:
             if isinstance(a, R) and a.kind == "dict":
                 return K(len(a.fields["items"]))
             return None
+        if d in ("all", "any") and len(call.args) == 1 and isinstance(call.args[0], ast.Call) and dotted(call.args[0].func) == "map" and len(call.args[0].args) == 2 \
+                and not call.args[0].keywords and not getattr(call, "_from_map", False):
+            # all(map(pred, xs)) is all(pred(x) for x in xs)
+            m_c = call.args[0]
+            ge = ast.GeneratorExp(elt=ast.Call(func=m_c.args[0], args=[ast.Name(id="__mapped__", ctx=ast.Load())], keywords=[]),
+                                  generators=[ast.comprehension(target=ast.Name(id="__mapped__", ctx=ast.Store()), iter=m_c.args[1], ifs=[], is_async=0)])
+            fake_c = ast.Call(func=call.func, args=[ge], keywords=[])
+            ast.copy_location(fake_c, call)
+            ast.fix_missing_locations(fake_c)
+            fake_c._from_map = True  # type: ignore[attr-defined]
+            return self.ri.interp.eval(fake_c, st)
         if d in ("all", "any") and len(call.args) == 1 and isinstance(call.args[0], (ast.GeneratorExp, ast.ListComp)) \
                 and len(call.args[0].generators) == 1 and not call.args[0].generators[0].ifs:
             # a predicate over the keys of the abstract dict: decided per *sort* of key the scenario's dict holds (exact str
@@ -356,6 +367,14 @@ class InferScenario:
                 if isinstance(a0, S) and a0.name.startswith("mod:typing."):
                     return K(a0.name[len("mod:typing."):])
                 return None
+        # a rewriter of typing.py built without arguments and kept in a local (`to_dict = RewriteAnonymousTypedDictToDict()`)
+        if isinstance(call.func, ast.Name) and not args and not kwargs and fname and self.repo.cls(TY, fname, required=False) is not None \
+                and any(c.name == "TypeRewriter" for c in self.repo.mro(self.repo.cls(TY, fname))):
+            return R("rwobj", cls=K(fname))
+        if isinstance(call.func, ast.Attribute) and call.func.attr == "rewrite" and isinstance(fval, R) and fval.kind == "rwobj":
+            ctor = fval.fields["cls"].v
+            self.calls.append(("rewrite:" + ctor, tuple(args), {}))
+            return R("rewritten", by=K(ctor), of=args[0] if args else U("?"))
         # RewriteAnonymousTypedDictToDict().rewrite(t)
         if isinstance(call.func, ast.Attribute) and call.func.attr == "rewrite" and isinstance(call.func.value, ast.Call):
             ctor = dotted(call.func.value.func) or ""
@@ -399,6 +418,10 @@ def elem_types_of(container: V, limit: V, what: str = "elem_of") -> V:
 def comp_covers_all(comp: V, container: V, what: str, limit: V) -> Tuple[bool, str]:
     """comp is an unfiltered comprehension over exactly `container` (or the matching view) whose element is
     get_type(<that element>, limit)."""
+    if isinstance(comp, K) and isinstance(comp.v, tuple) and len(comp.v) == 1 and comp.v[0] == R("typeof", of=R(what, of=container), limit=limit):
+        # a generator helper interpreted eagerly: its loop ran over the container's representative element, unfiltered
+        # (a test on the element would have been an undecided branch), and yielded get_type of it
+        return True, ""
     if not (isinstance(comp, R) and comp.kind == "comp"):
         return False, f"not a comprehension over the container: {comp}"
     if comp.fields["ifs"]:
